@@ -9,7 +9,7 @@ import datetime
 import itertools
 
 from mc.core import HarnessError, Res
-from mc.world import Clock, set_zone
+from mc.world import Clock, SteppingClock, set_zone
 from ref import zones as Z
 
 ID = "C13"
@@ -82,7 +82,64 @@ def jobs(tier, seed):
     for z in ("UTC", "Pacific/Kiritimati", "America/New_York"):
         for d in ("2024-12-30", "2024-12-31", "2025-01-01", "2024-02-28", "2024-02-29", "2025-02-28", "2024-04-30"):
             js.append({"zone": z, "date": d, "tier": "dst-" + tier})
+    # the clock moves on (to the next minute, to the next day) between two clock reads of one call
+    for z in ZONES:
+        js.append({"zone": z, "part": "stepping", "tier": tier})
     return js
+
+
+def check_stepping(res, clk, zone, date, from_hms, start_m, days, D, jump_at):
+    """The clock moves from `from_hms`.5 to one second later just before clock read `jump_at` of one call: the text must be
+    the right answer for the moment before or for the moment after, nothing else."""
+    from aioswitcher.schedule import tools
+
+    h, mi, sec = from_hms
+    hhmm = "%02d:%02d" % divmod(start_m, 60)
+    case = {"stepping": True, "zone": zone, "date": date.isoformat(), "from": list(from_hms), "start_m": start_m, "days": list(days), "jump_at": jump_at}
+    e0 = Z.epoch_at(zone, date, h, mi, sec)
+    e1 = e0 + 1
+    exp = set()
+    for e in (e0, e1):
+        ld = Z.local_date(zone, e)
+        hm = Z.local_hm(zone, e)
+        exp.add(ref_next_run(ld.weekday(), int(hm[:2]) * 60 + int(hm[3:]), start_m, set(days)))
+    clk.move_to(float(e0) + 0.5)
+    clk.arm(jump_at)
+    try:
+        out = tools.pretty_next_run(hhmm, {D[i] for i in days})
+    except Exception as exc:  # noqa: BLE001
+        res.violation("next-run-raises-when-clock-moves", case, f"{zone} {date} {from_hms}: raised {exc!r}")
+        return clk.reads
+    finally:
+        clk.jump_at = None
+    res.evals += 1
+    if clk.jumped:
+        res.kcount += 1
+    if out not in exp:
+        res.violation("next-run-mixes-two-moments", case,
+                      f"{zone}: the clock moves from {date} {h:02d}:{mi:02d}:{sec:02d} to the next second before read {jump_at} of one call; start {hhmm}, days "
+                      f"{[WEEKDAY_NAMES[i] for i in days]}: got {out!r}, right before or after would be {sorted(exp)}", sorted(exp), out)
+    return clk.reads
+
+
+def run_stepping(job, res):
+    from aioswitcher.schedule import Days
+
+    zone = job["zone"]
+    D = list(Days)
+    set_zone(zone)
+    sets = day_sets()[1:]
+    with SteppingClock(0.0) as clk:
+        for wd in range(7):
+            date = MONDAY + datetime.timedelta(days=wd)
+            for from_hms, starts in (((23, 59, 59), (0, 1, 720, 1439)), ((11, 59, 59), (719, 720, 721)), ((0, 0, 59), (0, 1, 2))):
+                for start_m in starts:
+                    for days in (sets if job.get("tier") == "thorough" else sets[::3]):
+                        reads = check_stepping(res, clk, zone, date, from_hms, start_m, days, D, None)
+                        for k in range(reads + 1):
+                            check_stepping(res, clk, zone, date, from_hms, start_m, days, D, k)
+    res.outcome(("stepping", zone))
+    return res
 
 
 def check(res, zone, weekday, now_m, start_m, days, D, via, date=None):
@@ -122,6 +179,8 @@ def run_job(job):
     from aioswitcher.schedule import Days
 
     res = Res()
+    if job.get("part") == "stepping":
+        return run_stepping(job, res)
     zone = job["zone"]
     D = list(Days)
     if "date" in job:
@@ -174,6 +233,10 @@ def replay(case):
 
     res = Res()
     set_zone(case["zone"])
+    if case.get("stepping"):
+        with SteppingClock(0.0) as clk:
+            check_stepping(res, clk, case["zone"], datetime.date.fromisoformat(case["date"]), tuple(case["from"]), case["start_m"], tuple(case["days"]), list(Days), case["jump_at"])
+        return res.violations
     date = datetime.date.fromisoformat(case["date"]) if case.get("date") else MONDAY + datetime.timedelta(days=case["weekday"])
     with Clock(0.0) as clk:
         clk.move_to(float(Z.epoch_at(case["zone"], date, case["now_m"] // 60, case["now_m"] % 60, 30)))
